@@ -262,7 +262,7 @@ struct NwrDense64 {
     static constexpr bool heavy = false;
     using Set = osmium::index::IdSetDense<uint64_t, 4>;
     using Id = uint64_t;
-    static Id val(int64_t x) { return x < 2 ? static_cast<Id>(x) : (x == 9 ? 127ULL : 4294967296ULL + static_cast<Id>(x)); }   // chunk = 128 ids
+    static Id val(int64_t x) { return x < 2 ? static_cast<Id>(x) : (x == 9 ? 127ULL : 5 * 128ULL + static_cast<Id>(x)); }   // chunk = 128 ids: last id of chunk 0, chunk 5
     static std::string set(Set& s, Id id, int k) { return dense_set(s, id, k); }
     static void unset(Set& s, Id id) { s.unset(id); }
 };
